@@ -259,3 +259,34 @@ func C01DKLs23Run[P curves.Point[P, B, S], B algebra.PrimeFieldElement[B], S alg
 	c01DKLsAggregate(out, suite, shards[quorum[0]].PublicKey(), quorum, message, ok, false)
 	return out
 }
+
+// C01DKLs23Partials runs the signing runners honestly (default schedule) and returns every cosigner's partial signature.
+func C01DKLs23Partials[P curves.Point[P, B, S], B algebra.PrimeFieldElement[B], S algebra.PrimeFieldElement[S]](mult string, suite *ecdsa.Suite[P, B, S], shards map[ID]*dkls23.Shard[P, B, S], quorum []ID, message []byte, seed int64, label string) (map[ID]*dkls23.PartialSignature[P, B, S], error) {
+	quorum = Sorted(quorum)
+	ctxs := Contexts(quorum, KeySeed(seed), "c01/dkls23/"+label)
+	res, info := schednet.RunAll(zeroChooserC01{}, schednet.New(quorum...), quorum, func(ctx context.Context, id ID, rt *network.Router) (*dkls23.PartialSignature[P, B, S], error) {
+		prng := det.New(seed, fmt.Sprintf("c01/dkls23/%s/%d", label, id))
+		var r network.Runner[*dkls23.PartialSignature[P, B, S]]
+		var err error
+		if mult == "bbot" {
+			r, err = signing_bbot.NewRunner(ctxs[id], suite, shards[id], message, prng)
+		} else {
+			r, err = signing_softspoken.NewRunner(ctxs[id], suite, shards[id], message, prng)
+		}
+		if err != nil {
+			return nil, err
+		}
+		return r.Run(ctx, rt, nil)
+	})
+	out := c01NewOut[*ecdsa.Signature[S]]()
+	ok := c01Collect(out, quorum, res, info)
+	if len(ok) != len(quorum) {
+		return nil, fmt.Errorf("honest DKLs23 run failed: %v", out.Errs)
+	}
+	return ok, nil
+}
+
+type zeroChooserC01 struct{}
+
+func (zeroChooserC01) Choose(string, int) int    { return 0 }
+func (zeroChooserC01) ChooseDev(string, int) int { return 0 }
